@@ -143,7 +143,7 @@ def run_tlc(module, cfg, workers=None, scn_out=None, env=None, simulate=None, de
         _tlc_seq[0] += 1
         my_seq = _tlc_seq[0]
     meta = os.path.join(sub("tlcmeta"), "m%d" % my_seq)
-    jopts = ["-XX:+UseParallelGC", "-Xss64m"]
+    jopts = ["-XX:+UseParallelGC", "-Xss64m", "-Djava.io.tmpdir=" + sub("tlctmp")]   # (TLC leaves a tlc-<n> directory per run)
     if heap:
         jopts.append("-Xmx" + heap)
     if dfs:
